@@ -601,7 +601,10 @@ impl Connection {
             let can_fit;
             {
                 let chunk = &online.resend_queue[online.resend_queue.len() - i - 1];
-                can_fit = online.packet.can_fit_chunk(&chunk.data, true);
+                // Like `send`, put a chunk that doesn't fit an empty packet
+                // into a packet of its own.
+                can_fit = online.packet.can_fit_chunk(&chunk.data, true)
+                    || online.packet.num_chunks == 0;
                 if can_fit {
                     let vital = (chunk.sequence.to_u16(), true);
                     online.packet.write_chunk(&chunk.data, Some(vital));
